@@ -1,13 +1,23 @@
 (* C07 — slices.Sorted is always sorted and is an exact multiset.
    Statements only; every proof is [exact] of a lemma from
-   Slices/SortSearchProofs.v or Slices/SortedProofs.v. *)
-From Typ Require Import Lib.Base Slices.SortSearch Slices.SortSearchProofs Slices.Sorted.
+   Slices/SortSearchProofs.v or Slices/SortedProofs.v.
+
+   Quantifiers: every element type T with a decidable equality [eqb] (Go's ==),
+   every less function with the stated order property, every initial slice and
+   every list of operations (no bound). [sort_Stable] is Go's sort.Stable
+   (behind sort.SliceStable), trusted to meet [stable_spec]; the contract is
+   satisfiable (C07_stable_contract_satisfiable). sort.Search is not trusted:
+   it is the transcribed loop [sort_search].
+   [reachable zero eqb sort_Stable less s]: s was built by NewSorted from some
+   slice and then went through some list of Add/Remove/RemoveAt/Index/
+   Contains/Get/Len/String calls. [String s] is the contents of s. *)
+From Typ Require Import Lib.Base Slices.SortSearch Slices.SortSearchProofs Slices.Sorted Slices.SortedProofs.
 
 Local Open Scope Z_scope.
 
-(* sort.Search (transcribed loop, not trusted): for a predicate that does not
-   panic on [0,n) and is monotone there, it returns the least index from which
-   the predicate holds, n if there is none; the fuel n is never exhausted. *)
+(* sort.Search (transcribed loop): for a predicate that does not panic on
+   [0,n) and is monotone there, it returns the least index from which the
+   predicate holds, n if there is none; the fuel n is never exhausted. *)
 Theorem C07_sort_search_lower_bound : forall (f : Z -> result bool) (g : Z -> bool) (n : Z),
   (forall h, 0 <= h < n -> f h = Ok (g h)) ->
   (forall a b, 0 <= a <= b -> b < n -> g a = true -> g b = true) ->
@@ -16,3 +26,167 @@ Theorem C07_sort_search_lower_bound : forall (f : Z -> result bool) (g : Z -> bo
     (forall k, 0 <= k < r -> g k = false) /\ (forall k, r <= k < n -> g k = true).
 Proof. exact sort_search_lower_bound. Qed.
 Print Assumptions C07_sort_search_lower_bound.
+
+(* The contract assumed of sort.Stable is met by the insertion sort that the
+   correspondence check runs the model with. *)
+Theorem C07_stable_contract_satisfiable : stable_spec insertion_sort.
+Proof. exact insertion_sort_stable_spec. Qed.
+Print Assumptions C07_stable_contract_satisfiable.
+
+(* The contract determines the result: a sorted permutation that keeps every
+   class of order-equivalent elements in input order is unique, and [isort] is one. *)
+Theorem C07_stable_sort_unique : forall (A : Type) (less : A -> A -> bool), StrictWeakOrder less ->
+  forall l1 l2, Sorted (le_of less) l1 -> Sorted (le_of less) l2 -> Permutation l1 l2 ->
+  (forall a, filter (eqv less a) l1 = filter (eqv less a) l2) -> l1 = l2.
+Proof. exact @stable_sort_unique. Qed.
+Print Assumptions C07_stable_sort_unique.
+
+(* NewSorted copies the input and stable-sorts the copy: the contents are the
+   stable sort of the input (a sorted permutation of it, by the contract). *)
+Theorem C07_new_sorted : forall (T : Type) (zero : T)
+  (sort_Stable : forall St, Interface St -> St -> result St), stable_spec sort_Stable ->
+  forall less : T -> T -> bool, StrictWeakOrder less ->
+  forall values, NewSorted zero sort_Stable values less = Ok (MkSorted (isort less values) (Some less)).
+Proof. exact @NewSorted_spec. Qed.
+Print Assumptions C07_new_sorted.
+
+(* NewSortedOrdered is NewSorted with the type's own < (typ.Less). *)
+Theorem C07_new_sorted_ordered : forall (T : Type) (zero : T)
+  (sort_Stable : forall St, Interface St -> St -> result St), stable_spec sort_Stable ->
+  forall lt : T -> T -> bool, StrictWeakOrder lt ->
+  forall values, NewSortedOrdered zero sort_Stable lt values = NewSorted zero sort_Stable values lt /\
+    NewSortedOrdered zero sort_Stable lt values = Ok (MkSorted (isort lt values) (Some lt)).
+Proof. exact @NewSortedOrdered_spec. Qed.
+Print Assumptions C07_new_sorted_ordered.
+
+(* Main invariant. From NewSorted over any input and after any sequence of
+   operations, the contents are in non-decreasing order under less (no
+   element is less than an earlier one) and are exactly the multiset of values
+   put in and not taken out ([spec_run]: Add v puts v in; Remove v takes one v
+   out iff it reports a position; RemoveAt i takes out the value Get i shows;
+   nothing else changes it; it is [Some]: nothing absent is ever taken out). *)
+Theorem C07_sorted_multiset : forall (T : Type) (zero : T) (eqb : T -> T -> bool)
+  (sort_Stable : forall St, Interface St -> St -> result St),
+  (forall x y, eqb x y = true <-> x = y) -> stable_spec sort_Stable ->
+  forall less : T -> T -> bool, StrictWeakOrder less ->
+  forall (init : list T) (ops : list (op T)),
+  exists s0, NewSorted zero sort_Stable init less = Ok s0 /\
+  exists bag, spec_run eqb s0 init ops = Some bag /\
+    Sorted (le_of less) (String (fst (run eqb s0 ops))) /\
+    Permutation (String (fst (run eqb s0 ops))) bag.
+Proof. exact @sorted_multiset. Qed.
+Print Assumptions C07_sorted_multiset.
+
+(* A strict total order consistent with == is in particular a strict weak order. *)
+Theorem C07_total_is_weak : forall (T : Type) (less : T -> T -> bool),
+  StrictTotalOrder less -> StrictWeakOrder less.
+Proof. exact @sto_swo. Qed.
+Print Assumptions C07_total_is_weak.
+
+(* Add returns the position r at which the new value now sits: the contents
+   become the old ones with v inserted at r, every element before r is less
+   than v and no element from r on is (so r is where v belongs). *)
+Theorem C07_add_position : forall (T : Type) (zero : T) (eqb : T -> T -> bool)
+  (sort_Stable : forall St, Interface St -> St -> result St),
+  (forall x y, eqb x y = true <-> x = y) -> stable_spec sort_Stable ->
+  forall less : T -> T -> bool, StrictTotalOrder less ->
+  forall (s : sorted T) (v : T), reachable zero eqb sort_Stable less s ->
+  exists (r : nat) (s' : sorted T), Add s v = Ok (s', Z.of_nat r) /\ (r <= length (String s))%nat /\
+    String s' = firstn r (String s) ++ v :: skipn r (String s) /\
+    nth_error (String s') r = Some v /\
+    (forall k x, (k < r)%nat -> nth_error (String s) k = Some x -> less x v = true) /\
+    (forall k x, (r <= k)%nat -> nth_error (String s) k = Some x -> less x v = false) /\
+    reachable zero eqb sort_Stable less s'.
+Proof. exact @Add_position. Qed.
+Print Assumptions C07_add_position.
+
+(* Index returns the first position holding the value, or -1 (when it is absent). *)
+Theorem C07_index_first : forall (T : Type) (zero : T) (eqb : T -> T -> bool)
+  (sort_Stable : forall St, Interface St -> St -> result St),
+  (forall x y, eqb x y = true <-> x = y) -> stable_spec sort_Stable ->
+  forall less : T -> T -> bool, StrictTotalOrder less ->
+  forall (s : sorted T) (v : T), reachable zero eqb sort_Stable less s ->
+  (~ In v (String s) /\ Index eqb s v = Ok (-1)) \/
+  (exists r : nat, first_position (String s) v r /\ Index eqb s v = Ok (Z.of_nat r)).
+Proof. exact @Index_first. Qed.
+Print Assumptions C07_index_first.
+
+(* Contains agrees with Index (true iff Index is not -1) and with membership. *)
+Theorem C07_contains_agrees : forall (T : Type) (zero : T) (eqb : T -> T -> bool)
+  (sort_Stable : forall St, Interface St -> St -> result St),
+  (forall x y, eqb x y = true <-> x = y) -> stable_spec sort_Stable ->
+  forall less : T -> T -> bool, StrictTotalOrder less ->
+  forall (s : sorted T) (v : T), reachable zero eqb sort_Stable less s ->
+  exists (i : Z) (b : bool), Index eqb s v = Ok i /\ Contains eqb s v = Ok b /\
+    (b = true <-> i <> -1) /\ (b = true <-> In v (String s)).
+Proof. exact @Contains_agrees. Qed.
+Print Assumptions C07_contains_agrees.
+
+(* Remove deletes one occurrence (the first) and returns its former position,
+   or returns -1 and changes nothing (the same object) when the value is absent. *)
+Theorem C07_remove_first : forall (T : Type) (zero : T) (eqb : T -> T -> bool)
+  (sort_Stable : forall St, Interface St -> St -> result St),
+  (forall x y, eqb x y = true <-> x = y) -> stable_spec sort_Stable ->
+  forall less : T -> T -> bool, StrictTotalOrder less ->
+  forall (s : sorted T) (v : T), reachable zero eqb sort_Stable less s ->
+  (~ In v (String s) /\ Remove eqb s v = Ok (s, -1)) \/
+  (exists (r : nat) (s' : sorted T), first_position (String s) v r /\ Remove eqb s v = Ok (s', Z.of_nat r) /\
+     String s' = firstn r (String s) ++ skipn (S r) (String s) /\ s_less s' = s_less s).
+Proof. exact @Remove_first. Qed.
+Print Assumptions C07_remove_first.
+
+(* Get acts on exactly the given position and panics exactly outside [0,Len)
+   (any object, reachable or not; Get changes nothing: it returns no new object). *)
+Theorem C07_get_exact : forall (T : Type) (s : sorted T) (i : Z),
+  (0 <= i < Len s -> exists x, nth_error (String s) (Z.to_nat i) = Some x /\ Get s i = Ok x) /\
+  (~ 0 <= i < Len s -> Get s i = Panic IndexOutOfRange).
+Proof. exact @Get_exact. Qed.
+Print Assumptions C07_get_exact.
+
+(* RemoveAt deletes exactly the given position and panics exactly outside [0,Len). *)
+Theorem C07_removeat_exact : forall (T : Type) (zero : T) (eqb : T -> T -> bool)
+  (sort_Stable : forall St, Interface St -> St -> result St),
+  (forall x y, eqb x y = true <-> x = y) -> stable_spec sort_Stable ->
+  forall less : T -> T -> bool, StrictWeakOrder less ->
+  forall (s : sorted T) (i : Z), reachable zero eqb sort_Stable less s ->
+  (0 <= i < Len s -> exists s', RemoveAt s i = Ok s' /\ s_less s' = s_less s /\
+     String s' = firstn (Z.to_nat i) (String s) ++ skipn (S (Z.to_nat i)) (String s)) /\
+  (~ 0 <= i < Len s -> RemoveAt s i = Panic IndexOutOfRange).
+Proof. exact @RemoveAt_exact. Qed.
+Print Assumptions C07_removeat_exact.
+
+(* The only calls that panic are Get and RemoveAt with a position outside
+   [0,Len); they panic at their first statement (so leave the object alone,
+   which is what [step_total] models); every other call returns normally — in
+   particular sort.Search never indexes outside the slice, Insert/Remove never
+   slice out of bounds, and Remove of an absent value does not panic. *)
+Theorem C07_panics_exactly_out_of_range : forall (T : Type) (zero : T) (eqb : T -> T -> bool)
+  (sort_Stable : forall St, Interface St -> St -> result St),
+  (forall x y, eqb x y = true <-> x = y) -> stable_spec sort_Stable ->
+  forall less : T -> T -> bool, StrictWeakOrder less ->
+  forall (s : sorted T) (o : op T), reachable zero eqb sort_Stable less s ->
+  (op_in_range s o -> exists p, step eqb s o = Ok p) /\
+  (~ op_in_range s o -> step eqb s o = Panic IndexOutOfRange).
+Proof. exact @panics_exactly_out_of_range. Qed.
+Print Assumptions C07_panics_exactly_out_of_range.
+
+(* Non-vacuity: the hypotheses are satisfiable (Z with ==, <; a key-only order
+   with ties; the insertion-sort instance of the sort.Stable contract), and a
+   run with duplicates, ties, an absent Remove and out-of-range positions. *)
+Theorem C07_hypotheses_satisfiable :
+  (forall x y : Z, Z.eqb x y = true <-> x = y) /\ StrictTotalOrder Z.ltb /\
+  StrictWeakOrder (fun a b => Z.ltb (a / 4) (b / 4)) /\ stable_spec insertion_sort.
+Proof. exact (conj Z.eqb_eq (conj Z_ltb_sto (conj Z_key_swo insertion_sort_stable_spec))). Qed.
+Print Assumptions C07_hypotheses_satisfiable.
+
+Example C07_example :
+  (do s <- NewSorted 0 insertion_sort [5;3;9;3;1] Z.ltb;
+   let r := run Z.eqb s [OAdd 3; OAdd 0; OIndex 3; ORemove 3; ORemove 7; OGet 9; ORemoveAt 0; OContains 9; OString] in
+   Ok (String s, snd r, String (fst r)))
+  = Ok ([1;3;3;5;9],
+        [RInt 1; RInt 0; RInt 2; RInt 2; RInt (-1); RPanic IndexOutOfRange; RUnit; RBool true; RList [1;3;3;5;9]],
+        [1;3;3;5;9])
+  /\ (do s <- NewSorted 0 insertion_sort [5;2;1;6] (fun a b => Z.ltb (a / 4) (b / 4));
+      Ok (String s, snd (run Z.eqb s [OIndex 1; ORemove 1; OAdd 0; OString])))
+     = Ok ([2;1;5;6], [RInt (-1); RInt (-1); RInt 0; RList [0;2;1;5;6]]).
+Proof. vm_compute. split; reflexivity. Qed.
